@@ -3,9 +3,12 @@
 # applies the patch to /repo, runs the given checks (quick), restores /repo.
 set -u
 PATCH="$1"; shift
+EVBAK=$(mktemp -d); cp -r /verif/evidence "$EVBAK/"; cp /verif/lean/Pep508/Generated/Tables.lean "$EVBAK/"
 cd /repo && git apply "$PATCH" || { echo "patch does not apply"; exit 2; }
 cd /verif
 for P in "$@"; do
   python3 check.py "$P" "${TIER:-quick}" 2>&1 | grep -E "VIOLATION|KNOWN-FINDING|$P (quick|thorough):|ERROR" | cut -c1-260
 done
 cd /repo && git checkout -- . && git status --short | head -3
+# the runs above were against a modified tree: put the evidence of the unchanged tree and the generated tables back
+rm -rf /verif/evidence && cp -r "$EVBAK/evidence" /verif/evidence && cp "$EVBAK/Tables.lean" /verif/lean/Pep508/Generated/Tables.lean && rm -rf "$EVBAK"
